@@ -9,6 +9,13 @@ HERE = os.path.dirname(os.path.dirname(os.path.abspath(__file__)))
 FIX_COMMITS = []  # hooks: none (no guarded source changes are needed)
 
 CHECKS = {
+    "C01": ("model_checking", "3 C01",
+            "Bounded-exhaustive exploration of the real ask/tell loop: every reward sequence over a 4-value alphabet (incl. 1e6 and "
+            "negatives) for T<=4..6 and every script within k deviations of six base scripts for T up to the budget, over the whole "
+            "algorithm x partition x box x parameter pool, with every RNG answer of the partitions/VROOM enumerated from a seam; "
+            "never-hangs is decided by a deterministic branch-count budget (sys.monitoring), not wall clock.",
+            "Trusts NumPy and CPython; alphabets and horizons are finite (coverage.bounds); known findings D7,D8,D10,D11 are listed in known_findings.json.",
+            "stateless bounded-exhaustive script enumeration (E-full/E-dev) of the implementation, totality + box-membership oracle"),
     "C02": ("model_checking", "3 C02",
             "Every operation sequence deepen/make_children up to N on all 11 partition variants over a box pool with floating-point "
             "corner boxes and every split-dimension / split-fraction answer (bounded deviations), judged by exact bit-level and "
@@ -21,6 +28,12 @@ CHECKS = {
             "tree-building algorithm (incl. learners inside POO/GPO).",
             "Public getters report the real state; bounds N, T, k in coverage.bounds.",
             "explicit-state exploration (E-ops) + stateless script enumeration of algorithm runs, invariant oracle on every state"),
+    "C04": ("model_checking", "3 C04",
+            "Every reward sequence in {0,1,-1}^T (T=7/9) and every script within k deviations of base scripts over 60-150 rounds, for every "
+            "algorithm (wrappers with recording learners) on three partitions; after every round a harness ledger built from the "
+            "crediting rule of the statement is compared with counts, reward lists, means and variances of every cell reachable from the root.",
+            "The anchored attributes name the handed-out cell (its representative is checked against the returned point); GPO validation rounds are recognised inside the published horizon.",
+            "stateless bounded-exhaustive script enumeration of the implementation in lock-step with a ledger reference model"),
 }
 
 LATER = {
